@@ -308,7 +308,7 @@ def check(ctx, replay=None):
     others = sorted(n for n in table["names"] if n not in probe_names)
     allow_all = "  - action: allow\n    names:\n" + "".join("    - %s\n" % n for n in others)
     observes = {"allow": "returned:38", "log": "returned:38", "trace": "returned:38", "errno": "returned:1", "kill_thread": "thread-gone",
-                "kill_process": "SIGSYS", "trap": "SIGSYS"}
+                "kill_process": "died", "trap": "died"}   # (SIGSYS: the target prints its first line and never the second)
     for k, (default, gact) in enumerate([(a, None) for a in sorted(observes)] + [("errno", a) for a in sorted(observes) if a != "errno"] + [("allow", "kill_thread")]):
         text = "seccomp:\n  default_action: %s\n  syscalls:\n" % default + allow_all + "  - action: errno\n    names:\n    - tuxcall\n"
         if gact:
@@ -321,11 +321,12 @@ def check(ctx, replay=None):
         ctx.cov["distinct_nontrivial"] += 1
         want = observes[gact or default]
         lines = [l for l in res["stdout"].strip().splitlines() if l.startswith("{")]
+        # judged from the target's own output only (how the sandbox words the child's fate is not part of the statement)
         got = None
-        if res["sigsys"]:
-            got = "SIGSYS"
-        elif len(lines) >= 2:
+        if len(lines) >= 2:
             got = json.loads(lines[-1]).get("fatal")
+        elif len(lines) == 1:
+            got = "died"
         if res["rc"] != 0 and not res["marker"]:
             ctx.note("an allow-all-but-probes policy (default %s) was refused by the sandbox (rc %d): %s" % (default, res["rc"], res["stderr"][-120:]))
         elif got != want:
